@@ -264,7 +264,33 @@ HOLD = {}
 PENDING = "check under construction in this session; not claimed until its quick check is green on the unchanged tree at several seeds"
 
 
+# round 4 (translation round): appended to the level text; the technique becomes TECH_GEN
+ROUND4 = {
+    "C03": " Translation round (28 further theorems, 84 in all): the ellipsoid loop statement by statement, the bundle's convergence tests, error re-basing and small QP solutions, the curve search's "
+           "start values and whole m1..m4 decision chain, the proximity updates and the RQB / FPBA flags are RE-TRANSLATED from the source on every run (Gen/EllipsoidStep, Gen/BundleStep) and the "
+           "hand-written model is proved to be the generated text (model_*_is_generated).",
+    "C05": " Translation round (14 further theorems, 65 in all): guards, values and gradient factors of the three penalty functions, make_ro1, make_criterion, the augmented-Lagrangian step (initial "
+           "multipliers, converged, best-update guard, rho rule, multiplier updates) and the penalty solver's step are RE-TRANSLATED from the source on every run (Gen/PenaltyKernels, Gen/AugLagStep) "
+           "and proved equal to the model for every scalar type.",
+    "C10": " Translation round (28 further theorems, 82 in all): the criterion formulas with the score floor, the accumulator's closed forms, the affine / stump / hinge closed forms with their "
+           "distinct-value, mid-point and acceptance rules and predict forms, and the table learners' bin scores, parameter counts and lexicographic acceptance are RE-TRANSLATED from the source "
+           "on every run (Gen/WLearner*) and proved equal to the model; new oracle clause: the reported AIC / AICc / BIC score is the textbook criterion of the learner's own RSS.",
+    "C12": " Translation round (25 further theorems, 75 in all): the k-fold boundaries / sizes / segment pieces / sorts, the random splitter's size formula and per-fold shuffle, the guards and "
+           "skeletons of the seeded sampling overloads, make_rng's branch, make_udist and the gboost sampler's routing are RE-TRANSLATED from the source on every run (Gen/Split*) and proved equal "
+           "to the model; the property is restated on the regenerated text.",
+    "C13": " Translation round (37 further theorems, 96 in all): the space constructor's checks, to/from_surrogate, the closest-grid scans, local_search, evaluate, the coarse / main loop rules, the "
+           "quadratic surrogate's loop nests with the threaded coefficient walk, optimum_trial / closest_trial and the (trial, fold) index arithmetic of ml::tune are RE-TRANSLATED from the source "
+           "on every run (Gen/TunerSpace) and proved equal to the model.",
+    "C16": " Translation round (37 further theorems, 190 in all): the template recursions of dims.h (product, get_index0, get_index, get_dims0) read as list recursions, the range / slice / reshape / "
+           "arange guards, the partial-index views, the integral-image loops and remove_if are RE-TRANSLATED from the headers on every run (Gen/Tensor*) and the model's definitions are proved "
+           "equal to them (by induction where the recursion shapes differ).",
+}
+
+
 def main():
+    for pid, more in ROUND4.items():
+        CLAIMED[pid]["text"] += more
+        CLAIMED[pid]["technique"] = TECH_GEN
     props = [json.loads(l) for l in open(os.path.join(VERIF, "properties.jsonl"))]
     old = json.load(open(os.path.join(VERIF, "MANIFEST.json")))
     checks = []
